@@ -194,7 +194,7 @@ class Executor(CallMixin, EvalMixin, ExprMixin, StmtMixin):
             # keeps quantifier triggers free of ite terms
             l = a[0]
             if isinstance(l.ty, T.Opt): l = SV(l.ty.t, T.opt_val(l.ty, l.t))
-            v = SV(l.ty.t, z3.Select(T.list_arr(l.ty, l.t), self.coerce(a[1], T.Int).t)); return v
+            v = SV(l.ty.t, z3.Select(T.list_arr(l.ty, l.t), self.coerce(a[1], T.Int).t)); self.assume_wf(st, v); return v
         if name == "is_empty_list":
             return SV(T.Bool, T.list_len(a[0].ty, a[0].t) == 0)
         if name == "unboxed":
@@ -215,6 +215,10 @@ class Executor(CallMixin, EvalMixin, ExprMixin, StmtMixin):
         if name == "is_int": return SV(T.Bool, T.card_is_int(a[0].t))
         if name == "card_val": return SV(T.Int, T.card_n(a[0].t))
         if name == "card_int": return SV(T.Card, T.card_int(a[0].t))
+        if name == "fresh_obj":
+            # the object did not exist in the pre-state of the function (allocated by this call)
+            base = st.old.alloc if getattr(st, "old", None) is not None else st.alloc
+            return SV(T.Bool, a[0].t >= base)
         if name == "is_alloc": return SV(T.Bool, z3.And(a[0].t >= 1, a[0].t < st.alloc))
         if name == "alloc": return SV(T.Int, st.alloc)
         if name == "has_class":
